@@ -35,8 +35,8 @@ import (
 //	    scheduler's internal unit evaluates (list before the Tick), the wavefronts issued to it,
 //	    the MapWGReq taken from ToACE; `t` compares states, pools and messages after the Tick.
 //
-// Oracles (independent bookkeeping): C09.cu.completion-twice / -missing / -early / -wrong-id,
-// C09.cu.pool-leak, C09.cu.pool-overflow, C09.cu.panic.
+// Oracles (independent bookkeeping): C09.cu.completion-twice[.whole-second] / -missing / -early /
+// -wrong-id, C09.cu.pool-leak, C09.cu.pool-overflow, C09.cu.panic, C09.cu.whole-second-tie.not-replayed.
 func init() { register("C09", runC09CU) }
 
 // ---------------------------------------------------------------- shared
@@ -357,8 +357,11 @@ func (e *c09cuEmu) decide() {
 	e.ops = append(e.ops, "f") // answered by the next after-event hook, or `idle`
 }
 
-// c09cuWitness: the run of emu_exactly_once_full_refuted (Props/C09CU.lean, `wholeSecondOps`) on
-// the real emu.ComputeUnit and the real sim.SerialEngine, cu.Freq = 1 Hz.
+// c09cuWitness: the run `wholeSecondOps` of Props/C09CU.lean on the real emu.ComputeUnit and the
+// real sim.SerialEngine, cu.Freq = 1 Hz: request 2 is taken at a whole second while the retry of
+// request 1 is pending, both completion events tie and the heap pops the retry second. Before
+// `fix:` 776c38a7 request 1 was answered twice (emu_exactly_once_full_before_fix_refuted,
+// messages [1 2] [1]); the repaired code must send exactly [1 2] (emu_exactly_once_full_holds).
 var c09cuWitness = strings.Fields("d fill f f f f d f f take f f f take take f")
 
 func c09cuEmuCase(r *Run, rng *Rng, P int, script ...string) {
@@ -416,10 +419,17 @@ func c09cuEmuCase(r *Run, rng *Rng, P int, script ...string) {
 	r.Count(fmt.Sprintf("c09cu.emu.P=%d", P))
 	if e.scripted {
 		r.Count("c09cu.emu.witness-replay")
-		if !e.twice && len(e.msgs) == 2 && len(e.msgs[1]) == 1 {
-			r.Note("emu whole-second witness reproduced on the real CU and engine: messages %v", e.msgs)
-		} else {
-			r.Note("emu whole-second witness NOT reproduced: messages %v", e.msgs)
+		r.Checked("cu-emu-whole-second-tie")
+		dup := false
+		for _, c := range e.sentCnt {
+			dup = dup || c > 1
+		}
+		if e.wholeSec && len(e.msgs) == 1 && len(e.msgs[0]) == 2 && e.msgs[0][0] == 1 && e.msgs[0][1] == 2 {
+			r.Note("emu whole-second tie (witness of the defect repaired by 776c38a7) replayed on the real CU and engine: one answer per request, messages %v", e.msgs)
+		} else if ok && fault == "" && !dup {
+			// a duplicate answer is reported below (C09.cu.completion-twice.whole-second); anything
+			// else means the script no longer reaches the tie
+			r.Failf("C09.cu.whole-second-tie.not-replayed", cs, "emulation CU, scripted whole-second tie: messages %v, expected exactly [[1 2]] (request taken at a whole second: %v)", e.msgs, e.wholeSec)
 		}
 	}
 	if e.wholeSec {
@@ -441,8 +451,8 @@ func c09cuEmuCase(r *Run, rng *Rng, P int, script ...string) {
 		case c == 0:
 			r.Failf("C09.cu.completion-missing", cs, "emulation CU: MapWGReq %d never answered (engine idle, port drained); messages %v", id, e.msgs)
 		case c > 1 && e.wholeSec && !e.twice && P < 1000000000:
-			// the refuted full statement (emu_exactly_once_full_refuted): reproduced on the real
-			// CU and engine at a scaled clock
+			// the defect repaired by 776c38a7 (emu_exactly_once_full_before_fix_refuted): a request
+			// taken at a whole second, a retry event popped second, the id appended again
 			r.Failf("C09.cu.completion-twice.whole-second", cs, "emulation CU: MapWGReq %d answered %d times; messages %v", id, c, e.msgs)
 		case c > 1:
 			r.Failf("C09.cu.completion-twice", cs, "emulation CU: MapWGReq %d answered %d times; messages %v", id, c, e.msgs)
